@@ -132,6 +132,7 @@ def make(ti_renderable, hooks):
     class SimArgs(R.ArgsNamespace, render_cls=SimRenderable):
         char: str = "#"
         shift: int = 0      # int-valued: -1 and -2 are distinct values with equal hashes
+        tag: object = None  # ignored by the render; may hold an unhashable value
 
     class SimData(R.DataNamespace, render_cls=SimRenderable):
         token: int
